@@ -86,6 +86,7 @@ Print Assumptions c18_nonce_check_converse.
 
 Theorem c18_is_prefix_spec : forall p s, is_prefix p s = true <-> exists t, s = p ++ t.
 Proof. exact is_prefix_spec. Qed.
+Print Assumptions c18_is_prefix_spec.
 
 (* 4. server authentication.  Whenever the client got as far as sending client-final, the
    login completes IFF the v attribute of server-final decodes to exactly
